@@ -1965,6 +1965,154 @@ fn round_undriven(seed: u64, hb: &Heartbeat, tot: &Mutex<Tot>, prop: &str) {
 }
 
 // ---------------------------------------------------------------------------------------------
+// dlrace (C15, needs deadlock-detection): many actors on many worker threads issue in-actor asks at once - some answered, some
+// ended by their timeout while the callee is still busy - so that the wait-for graph's lock is contended at the very moments
+// edges are inserted and removed. When everything has finished the graph must be empty (hook H1), and an actor whose ask had
+// timed out must not be reported as a deadlock party when its former callee later asks it.
+// ---------------------------------------------------------------------------------------------
+#[cfg(feature = "f_deadlock")]
+mod dn {
+    use rsactor::{Actor, ActorRef, Message};
+    use std::time::Duration;
+    pub struct N;
+    pub struct Probe(pub ActorRef<N>, pub u64, pub u64);
+    pub struct Sleepy(pub u64);
+    pub struct Relay(pub ActorRef<N>);
+    pub struct Ping;
+    impl Actor for N {
+        type Args = ();
+        type Error = String;
+        async fn on_start(_: (), _: &ActorRef<Self>) -> Result<Self, String> {
+            Ok(N)
+        }
+    }
+    impl Message<Ping> for N {
+        type Reply = u8;
+        async fn handle(&mut self, _: Ping, _: &ActorRef<Self>) -> u8 {
+            1
+        }
+    }
+    impl Message<Sleepy> for N {
+        type Reply = ();
+        async fn handle(&mut self, m: Sleepy, _: &ActorRef<Self>) {
+            tokio::time::sleep(Duration::from_millis(m.0)).await;
+        }
+    }
+    impl Message<Probe> for N {
+        type Reply = bool;
+        async fn handle(&mut self, m: Probe, _: &ActorRef<Self>) -> bool {
+            // an in-actor ask that ends by its timeout (the callee sleeps longer)
+            m.0.ask_with_timeout(Sleepy(m.1), Duration::from_millis(m.2)).await.is_ok()
+        }
+    }
+    impl Message<Relay> for N {
+        type Reply = bool;
+        async fn handle(&mut self, m: Relay, _: &ActorRef<Self>) -> bool {
+            m.0.ask(Ping).await.is_ok()
+        }
+    }
+}
+
+#[cfg(all(feature = "f_deadlock", rsactor_verif))]
+fn round_dlrace(seed: u64, hb: &Heartbeat, tot: &Mutex<Tot>, prop: &str) {
+    use dn::*;
+    let mut r = Rng::new(seed);
+    let workers = *r.pick(&[4usize, 8, 16]);
+    let rt = tokio::runtime::Builder::new_multi_thread().worker_threads(workers).enable_time().build().unwrap();
+    let pairs = 8 + r.below(12) as usize;
+    let noise = 8 + r.below(20) as usize;
+    let iters = 5 + r.below(10);
+    let bucket0 = hb.now_bucket();
+    let mut viol: Vec<(String, String)> = vec![];
+    let mut timed_out = 0u64;
+    let ok = rt.block_on(async {
+        let mut nodes = vec![];
+        let mut jhs = vec![];
+        for _ in 0..(2 * (pairs + noise)) {
+            let (a, jh) = rsactor::spawn::<N>(());
+            nodes.push(a);
+            jhs.push(jh);
+        }
+        let mut tasks = vec![];
+        for p in 0..pairs {
+            let (a, b) = (nodes[2 * p].clone(), nodes[2 * p + 1].clone());
+            let mut pr = Rng::new(r.next());
+            tasks.push(tokio::spawn(async move {
+                let mut n = 0u64;
+                for _ in 0..iters {
+                    // callee sleeps 2-3 ms, the in-actor ask gives up after 1 ms
+                    if let Ok(false) = a.ask(Probe(b.clone(), 2 + pr.below(2), 1)).await {
+                        n += 1;
+                    }
+                    // wait until the callee is free again, then let it ask the former asker back
+                    let _ = b.ask(Ping).await;
+                    match b.ask(Relay(a.clone())).await {
+                        Ok(true) => {}
+                        other => return Err(format!("after actor A's in-actor ask_with_timeout to B had timed out and B had finished, B asked A (idle): {other:?}")),
+                    }
+                }
+                Ok(n)
+            }));
+        }
+        for q in 0..noise {
+            let (x, y) = (nodes[2 * (pairs + q)].clone(), nodes[2 * (pairs + q) + 1].clone());
+            tasks.push(tokio::spawn(async move {
+                for _ in 0..(iters * 6) {
+                    let _ = x.ask(Relay(y.clone())).await;
+                }
+                Ok(0)
+            }));
+        }
+        let mut all = true;
+        for t in tasks {
+            match tokio::time::timeout(Duration::from_secs(20), t).await {
+                Ok(Ok(Ok(n))) => timed_out += n,
+                Ok(Ok(Err(m))) => viol.push(("C15.sound".into(), format!("[dlrace] {m}"))),
+                Ok(Err(_)) => viol.push(("C15.sound".into(), "[dlrace] a client task panicked".into())),
+                Err(_) => all = false,
+            }
+        }
+        // everything has finished: the graph must be empty
+        let snap = rsactor::verif::wait_for_snapshot();
+        if all && !snap.is_empty() {
+            viol.push(("C15.residue".into(), format!("[dlrace] {} in-actor asks ended by their timeout and the rest were answered, all on {workers} worker threads at once; after every ask had finished the wait-for graph still holds {:?}", timed_out, &snap[..snap.len().min(6)])));
+        }
+        let mut deadlock_panics = 0;
+        for (a, jh) in nodes.iter().zip(jhs.into_iter()) {
+            let _ = a.kill();
+            if let Ok(Err(e)) = tokio::time::timeout(Duration::from_secs(10), jh).await {
+                if e.is_panic() && panic_payload_to_string(e.into_panic().as_ref()).contains("Deadlock detected") {
+                    deadlock_panics += 1;
+                }
+            }
+        }
+        if deadlock_panics > 0 {
+            viol.push(("C15.sound".into(), format!("[dlrace] {deadlock_panics} actor(s) died of a 'Deadlock detected' panic although no two asks ever waited for each other (the only unanswered asks had timed out)")));
+        }
+        all
+    });
+    rt.shutdown_timeout(Duration::from_secs(2));
+    let stalled = hb.max_late_since(bucket0) > STALL_US;
+    let mut t = tot.lock().unwrap();
+    t.rounds += 1;
+    t.hashes.insert(mix(pairs as u64 * 64 + noise as u64, iters * 32 + workers as u64));
+    *t.nontrivial.entry("C15".into()).or_default() += 1;
+    if !ok {
+        if !stalled {
+            t.inconclusive.push(format!("dlrace round {seed}: a client did not finish within 20 s"));
+        }
+        return;
+    }
+    *t.obl.entry("C15.residue").or_default() += 1;
+    *t.obl.entry("C15.timed_out_asks").or_default() += timed_out;
+    for (c, m) in viol {
+        if prop == "all" || prop == "C15" || prop == "C12" {
+            t.viol.push((c, m, seed, "dlrace".into()));
+        }
+    }
+}
+
+// ---------------------------------------------------------------------------------------------
 // abort: the actor's JoinHandle is resolved by `JoinHandle::abort()` while strong references exist.
 // Whatever made the handle resolve, "is_alive() is false once its JoinHandle has resolved, after which
 // every send fails" (C11) and "every ask still pending on it and every later ask returns an Err" (C03).
@@ -2760,6 +2908,17 @@ pub fn cmd_mt(a: &Args) -> i32 {
                     }
                 }
             }
+            #[cfg(all(feature = "f_deadlock", rsactor_verif))]
+            "dlrace" => {
+                let mut n = 0u64;
+                while tp.elapsed() < per_profile {
+                    n += 1;
+                    round_dlrace(mix(base, ((pi as u64) << 56) ^ n), &hb, &tot, &prop);
+                    if tot.lock().unwrap().viol.len() > 3 {
+                        break;
+                    }
+                }
+            }
             "abort" => {
                 let mut n = 0u64;
                 while tp.elapsed() < per_profile {
@@ -2826,7 +2985,7 @@ pub fn cmd_mt(a: &Args) -> i32 {
     #[cfg(feature = "f_testutils")]
     {
         let d = rsactor::dead_letter_count() - dl0;
-        if !tainted.load(Ordering::Relaxed) && profiles.iter().all(|p| p != "spawnstorm" && p != "tightrace" && p != "starve" && p != "mutualask" && p != "abort" && p != "reentrant" && p != "dropspin" && p != "metricsrace" && p != "undriven") {
+        if !tainted.load(Ordering::Relaxed) && profiles.iter().all(|p| p != "spawnstorm" && p != "tightrace" && p != "starve" && p != "mutualask" && p != "abort" && p != "reentrant" && p != "dropspin" && p != "metricsrace" && p != "undriven" && p != "dlrace") {
             *t.obl.entry("C13.counter").or_default() += 1;
             t.extra.insert("dead_letter_count_delta".into(), d);
             let fl = t.failures;
